@@ -138,21 +138,20 @@ def host_obs(events):
     return out
 
 
-def _collapse(obs, drop_pinmode=True, drop_reads=False):
-    """Drop pin writes that do not change the pin's level (signal semantics), zero-length delays, PINMODE."""
+def _collapse(obs, drop_pinmode=True, drop_reads=False, side="host"):
+    """Drop pin writes that do not change the pin's level (signal semantics), PINMODE and firmware delay(0)."""
     level = {}
     res = []
     for o in obs:
         k = o[1]
         if k == "PIN":
             pin, lv = o[2], o[3]
-            if level.get(pin) == lv:
+            if level.get(pin, 0) == lv:  # pins idle LOW / duty 0 after reset: writing 0 first is not a signal change
                 continue
             level[pin] = lv
             res.append(o)
         elif k == "DELAY":
-            if o[2] < 1:
-                res.append((o[0], "DELAY0"))
+            if side == "fw" and o[2] == 0:
                 continue
             res.append(o)
         elif k == "PINMODE" and drop_pinmode:
@@ -167,29 +166,28 @@ def _collapse(obs, drop_pinmode=True, drop_reads=False):
 
 
 def compare(host_events, trace, *, motor_duty_tol=1, ignore_initial_servo=True):
-    """Return None if equivalent, else a short description of the first divergence."""
-    h = _collapse(host_obs(host_events))
-    f_raw = fw_obs(trace)
-    f = _collapse(f_raw)
-    # sub-millisecond delays are invisible on the device but still shift host time: count them for the time tolerance
-    def strip0(seq):
-        out, cnt = [], 0
-        for o in seq:
-            if o[1] == "DELAY0":
-                cnt += 1
-                continue
-            out.append(o + (cnt,))
-        return out
-    h, f = strip0(h), strip0(f)
-    i = 0
-    n = min(len(h), len(f))
+    """Return None if equivalent, else a short description of the first divergence.
+
+    Delays: the device rounds every delay to whole milliseconds, so a host delay below 1 ms may have no counterpart
+    on the device (delay(0) / skipped call); otherwise paired delays must agree to within 1 ms.  Event times must agree
+    to within 1 ms per delay seen so far.
+    """
+    h = _collapse(host_obs(host_events), side="host")
+    f = _collapse(fw_obs(trace), side="fw")
+    i = j = 0
     delays = 0
-    while i < n:
-        ho, fo = h[i], f[i]
-        zero_delays = max(ho[-1], fo[-1])
-        ho, fo = ho[:-1], fo[:-1]
+    step = 0
+    while i < len(h) and j < len(f):
+        ho, fo = h[i], f[j]
+        if ho[1] == "DELAY" and ho[2] < 1.0 and (fo[1] != "DELAY" or abs(ho[2] - fo[2]) >= 1.0):
+            delays += 1
+            i += 1
+            continue
+        if fo[1] == "DELAY" and fo[2] <= 1 and ho[1] != "DELAY":
+            # the device may round a sub-millisecond wait up to 1 ms where the host model skipped it entirely: not granted
+            return f"event {step}: host {_fmt(ho)} vs firmware {_fmt(fo)}"
         if ho[1] != fo[1]:
-            return f"event {i}: host {_fmt(ho)} vs firmware {_fmt(fo)}"
+            return f"event {step}: host {_fmt(ho)} vs firmware {_fmt(fo)}"
         k = ho[1]
         ok = True
         if k == "MARK":
@@ -198,7 +196,7 @@ def compare(host_events, trace, *, motor_duty_tol=1, ignore_initial_servo=True):
             ok = ser_equal(ho[2], ho[3], fo[2])
         elif k == "DELAY":
             delays += 1
-            ok = fo[2] <= ho[2] + 1e-9 and ho[2] - fo[2] < 1.0
+            ok = abs(ho[2] - fo[2]) < 1.0
         elif k == "PIN":
             if len(ho) > 4:  # motor duty with tolerance
                 ok = ho[2] == fo[2] and abs(ho[4] - fo[3]) <= motor_duty_tol + 0.5
@@ -209,10 +207,11 @@ def compare(host_events, trace, *, motor_duty_tol=1, ignore_initial_servo=True):
         elif k == "SERVO":
             if ho[2] != fo[2] or ho[3] != fo[3]:
                 ok = False
-            elif ho[3] == "angle":
-                ok = abs(math.floor(ho[4] + 0.5) - fo[4]) <= 0 or abs(ho[4] + 0.5 - round(ho[4] + 0.5)) < 1e-4 and abs(ho[4] - fo[4]) <= 1
             else:
-                ok = abs(math.floor(ho[5] + 0.5) - fo[4]) <= 0 or abs(ho[5] + 0.5 - round(ho[5] + 0.5)) < 1e-3 and abs(ho[5] - fo[4]) <= 1
+                exact = ho[4] if ho[3] == "angle" else ho[5]
+                want = math.floor(exact + 0.5)
+                frac = exact + 0.5 - math.floor(exact + 0.5)
+                ok = fo[4] == want or (min(frac, 1 - frac) < 1e-3 and abs(fo[4] - want) <= 1)
         elif k == "SERIAL_BEGIN":
             ok = ho[2] == fo[2]
         elif k == "SREAD":
@@ -220,15 +219,18 @@ def compare(host_events, trace, *, motor_duty_tol=1, ignore_initial_servo=True):
         elif k == "GLYPH":
             ok = tuple(ho[2:4]) == tuple(fo[2:4]) and list(ho[4]) == list(fo[4])
         if not ok:
-            return f"event {i}: host {_fmt(ho)} vs firmware {_fmt(fo)}"
-        # timing: change points agree to within 1 ms per delay so far
-        if abs(ho[0] - fo[0]) > 1.0 * (delays + zero_delays) + 1e-6 and k != "MARK":
-            return f"event {i} time: host {ho[0]:.3f} ms vs firmware {fo[0]:.3f} ms after {delays} delays ({_fmt(ho)})"
+            return f"event {step}: host {_fmt(ho)} vs firmware {_fmt(fo)}"
+        if abs(ho[0] - fo[0]) > 1.0 * delays + 1e-6 and k != "MARK":
+            return f"event {step} time: host {ho[0]:.3f} ms vs firmware {fo[0]:.3f} ms after {delays} delays ({_fmt(ho)})"
         i += 1
-    if len(h) != len(f):
-        extra = (h[n] if len(h) > n else f[n])[:-1]
-        side = "host" if len(h) > n else "firmware"
-        return f"event {n}: only {side} has {_fmt(extra)} (host {len(h)} events, firmware {len(f)})"
+        j += 1
+        step += 1
+    while i < len(h) and h[i][1] == "DELAY" and h[i][2] < 1.0:
+        i += 1
+    if i < len(h) or j < len(f):
+        extra = h[i] if i < len(h) else f[j]
+        side = "host" if i < len(h) else "firmware"
+        return f"event {step}: only {side} has {_fmt(extra)} (host {len(h)} events, firmware {len(f)})"
     return None
 
 
